@@ -96,23 +96,24 @@ func (l *evlog) has(name string, n int) bool {
 
 type faultConn struct {
 	net.Conn
-	l           *evlog
-	armed       atomic.Bool
-	nWrite      atomic.Int32
-	nRead       atomic.Int32
-	failWriteAt int32
-	failReadAt  int32
-	blockAt     int32
-	slowClose   bool
-	release     chan struct{}
-	closed      chan struct{}
-	closeOnce   sync.Once
-	closeCalls  atomic.Int32
-	triggered   atomic.Bool
-	inRead      atomic.Int32
-	holdRead    atomic.Bool   // the next transport read that returns data is held back until readRelease is closed
-	readHeld    chan struct{} // closed when a read is being held
-	readRelease chan struct{}
+	l             *evlog
+	armed         atomic.Bool
+	nWrite        atomic.Int32
+	nRead         atomic.Int32
+	failWriteAt   int32
+	failReadAt    int32
+	blockAt       int32
+	slowClose     bool
+	release       chan struct{}
+	closed        chan struct{}
+	closeOnce     sync.Once
+	closeCalls    atomic.Int32
+	triggered     atomic.Bool
+	inRead        atomic.Int32
+	writeDeadline atomic.Value  // time.Time: what the connection asked for with SetWriteDeadline
+	holdRead      atomic.Bool   // the next transport read that returns data is held back until readRelease is closed
+	readHeld      chan struct{} // closed when a read is being held
+	readRelease   chan struct{}
 }
 
 func (c *faultConn) Write(b []byte) (int, error) {
@@ -120,10 +121,19 @@ func (c *faultConn) Write(b []byte) (int, error) {
 		k := c.nWrite.Add(1)
 		if k == c.blockAt {
 			c.l.add("NetWriteBlocked", 0, int(k), "")
+			// a peer that stays connected but does not read: the write blocks until the script releases it, the connection is
+			// closed, or the write deadline the caller set passes
+			var dl <-chan time.Time
+			if d := c.writeDeadline.Load(); d != nil && !d.(time.Time).IsZero() {
+				dl = time.After(time.Until(d.(time.Time)))
+			}
 			select {
 			case <-c.release:
 			case <-c.closed:
 				return 0, errors.New("use of closed network connection")
+			case <-dl:
+				c.l.add("NetWriteTimeout", 0, int(k), "")
+				return 0, os.ErrDeadlineExceeded
 			}
 		}
 		if k == c.failWriteAt {
@@ -139,6 +149,11 @@ func (c *faultConn) Write(b []byte) (int, error) {
 		return n, err
 	}
 	return c.Conn.Write(b)
+}
+
+func (c *faultConn) SetWriteDeadline(t time.Time) error {
+	c.writeDeadline.Store(t)
+	return c.Conn.SetWriteDeadline(t)
 }
 
 func (c *faultConn) Read(b []byte) (int, error) {
@@ -301,7 +316,7 @@ func runScript(s script) *result {
 	case "readFail":
 		fc.failReadAt = int32(s.K)
 	}
-	if s.Place == "blockedFull" {
+	if s.Place == "blockedFull" || s.Event == "localCloseStalled" {
 		fc.blockAt = 1
 	}
 	fc.slowClose = s.Event == "localCloseReason" && s.K == 1
@@ -339,6 +354,19 @@ func runScript(s script) *result {
 			l.add("CloseStart", 0, 1, "")
 			cr := vh.Call(callDeadline, func() { sut.CloseDataConnection(4001, "close") })
 			l.add("CloseEnd", 0, 1, map[bool]string{true: "hang", false: "ok"}[cr.Hung])
+		case "localCloseStalled":
+			// the peer stays connected but reads nothing: message 1 sits in a transport write that nobody releases. A local close
+			// (k = 1: with a reason, which has to wait for that write) must still come back - the write deadline ends the write
+			go func() { write(1, 60) }()
+			time.Sleep(20 * time.Millisecond)
+			reason := ""
+			if s.K == 1 {
+				reason = "close"
+			}
+			l.add("CloseStart", 0, s.K, "")
+			cr := vh.Call(14*time.Second, func() { sut.CloseDataConnection(4001, reason) })
+			l.add("CloseEnd", 0, s.K, map[bool]string{true: "hang", false: "ok"}[cr.Hung])
+			time.Sleep(50 * time.Millisecond)
 		case "peerSilent":
 			// no pong, no FIN: only the read deadline (pong wait) notices; the ping goes out after 50 s, the deadline is 60 s
 			l.add("PeerSilent", 0, 0, "")
